@@ -43,9 +43,21 @@ type c13KeySpec struct {
 
 var c13RefusedKeys = []c13KeySpec{{0, -1}, {1, -1}, {2, -1}, {3, -1}, {3, 0x00}}
 
-var c13ValidKeys = []c13KeySpec{{4, -1}, {5, -1}, {31, -1}, {32, -1}, {33, -1}, {64, -1}, {255, -1}, {4, 0x00}, {32, 0xff}}
+// Fill -2: a typed, non-ASCII password of that many BYTES but fewer than four characters (4: one
+// emoji, 5: "pw€", 6: "日本"): "every key of 4+ bytes" counts bytes (added after the independently
+// seeded change C13-8: the minimum length was checked in code points).
+var c13ValidKeys = []c13KeySpec{{4, -1}, {5, -1}, {31, -1}, {32, -1}, {33, -1}, {64, -1}, {255, -1}, {4, 0x00}, {32, 0xff}, {4, -2}, {5, -2}, {6, -2}}
+
+var c13TextKeys = map[int]string{4: "\U0001F600", 5: "pw\u20ac", 6: "\u65e5\u672c"}
 
 func (k c13KeySpec) bytes() []byte {
+	if k.Fill == -2 {
+		t := []byte(c13TextKeys[k.Len])
+		if len(t) != k.Len {
+			panic("c13: text key table")
+		}
+		return t
+	}
 	b := make([]byte, k.Len)
 	for i := range b {
 		if k.Fill >= 0 {
@@ -58,6 +70,9 @@ func (k c13KeySpec) bytes() []byte {
 }
 
 func (k c13KeySpec) String() string {
+	if k.Fill == -2 {
+		return fmt.Sprintf("%dutf8", k.Len)
+	}
 	if k.Fill >= 0 {
 		return fmt.Sprintf("%dx%02x", k.Len, k.Fill)
 	}
